@@ -85,12 +85,13 @@ def weights(ctx, prefix, count):
 
 def build_curve(ctx, p, U, P, W=None, normalize_kv=True, evaluator=None, span_func=None):
     """BSpline.Curve (W is None) or NURBS.Curve through the public setters"""
+    kw = {} if span_func is None else {'find_span_func': span_func}
     if W is None:
-        c = ctx.geomdl('BSpline').Curve(normalize_kv=normalize_kv)
+        c = ctx.geomdl('BSpline').Curve(normalize_kv=normalize_kv, **kw)
         c.degree = p
         c.ctrlpts = [list(pt) for pt in P]
     else:
-        c = ctx.geomdl('NURBS').Curve(normalize_kv=normalize_kv)
+        c = ctx.geomdl('NURBS').Curve(normalize_kv=normalize_kv, **kw)
         c.degree = p
         c.ctrlptsw = [[x * w for x in pt] + [w] for pt, w in zip(P, W)]
     c.knotvector = list(U)
